@@ -8,12 +8,12 @@ from vf.models.greedy import greedy_outcomes
 from vf.spec import build, short
 from vf.zoo import cbs
 
-SHARDS = {"quick": 8, "thorough": 16}
+SHARDS = {"quick": 16, "thorough": 16}
 WATCHDOG = {"quick": 1800, "thorough": 10800}
 CASES = {"quick": 45, "thorough": 500}
 FLOORS = {
-    "quick": {"distinct_nontrivial": 40, "table_rows_checked": 2500, "greedy_compared": 150,
-              "cases[msl=1]": 25, "inner_intervals_evaluated": 100000, "threshold_pairs": 150},
+    "quick": {"distinct_nontrivial": 130, "table_rows_checked": 7700, "greedy_compared": 270,
+              "cases[msl=1]": 60, "inner_intervals_evaluated": 100000, "threshold_pairs": 150},
     "thorough": {"distinct_nontrivial": 800, "table_rows_checked": 40000},
 }
 ANCHORS = [
